@@ -53,6 +53,32 @@ class Obj:
         return o
 
 
+def _lk(t):
+    """Canonical form of a location: an array index is its number, whatever the type it was computed in
+    (arm[Dir::Left], arm[0] and arm[Left + Right - side] designate one element)."""
+    if not isinstance(t, tuple) or not t:
+        return t
+    if t[0] == 'index' and len(t) == 3 and isinstance(t[2], tuple) and len(t[2]) == 3 and t[2][0] == 'k' and isinstance(t[2][1], int):
+        return ('index', _lk(t[1]), ('k', t[2][1], 'int'))
+    return tuple(_lk(x) for x in t)
+
+
+class LocStore(dict):
+    """writes through symbolic lvalues, keyed by canonical location"""
+
+    def __getitem__(self, k):
+        return dict.__getitem__(self, _lk(k))
+
+    def __setitem__(self, k, v):
+        dict.__setitem__(self, _lk(k), v)
+
+    def __contains__(self, k):
+        return dict.__contains__(self, _lk(k))
+
+    def get(self, k, default=None):
+        return dict.get(self, _lk(k), default)
+
+
 class State:
     def __init__(self):
         self.envs = [{}]
@@ -64,7 +90,7 @@ class State:
         self.next_oid = [0]
         self.last_emplaced = {}
         self.contents = {}        # container term -> list of element objects known to be stored there
-        self.symstore = {}        # writes through symbolic lvalues: ('fld', base, name) -> value
+        self.symstore = LocStore()  # writes through symbolic lvalues: ('fld', base, name) -> value
         self.derefs = []          # (pointer term, line, number of path conditions when dereferenced)
         self.known = []           # (condition, value) facts that hold by construction: consulted by truth(), not path conditions
 
@@ -79,7 +105,8 @@ class State:
         s.next_oid = self.next_oid          # shared counter keeps oids unique across forks
         s.last_emplaced = dict(self.last_emplaced)
         s.contents = {k: list(v) for k, v in self.contents.items()}
-        s.symstore = dict(self.symstore)
+        s.symstore = LocStore()
+        dict.update(s.symstore, self.symstore)
         s.derefs = list(self.derefs)
         s.known = list(self.known)
         return s
@@ -95,7 +122,7 @@ class State:
         return self.envs[-1]
 
 
-IDENTITY_FNS = ('std::forward', 'std::move', 'std::addressof', 'std::as_const', 'std::launder')
+IDENTITY_FNS = ('std::forward', 'std::move', 'std::as_const', 'std::launder')
 
 
 class Sym:
@@ -1425,6 +1452,8 @@ class Sym:
         # identity helpers of the standard library
         if callee.get('repo') is False:
             base = q.split('<')[0]
+            if base == 'std::addressof' and len(args) == 1:
+                return [(st, self.simp(('addr', args[0])))]
             if base in IDENTITY_FNS and len(args) == 1:
                 return [(st, args[0])]
         if q.startswith('ipr::util::view<') and len(args) == 1 and self.dyn_class(args[0], st) is None:
